@@ -44,7 +44,9 @@ LineVersion(l) ==
 
 RefIds(l) == {l.refs[i].id : i \in DOMAIN l.refs}
 \* identifiers the line mentions that must be segments
-SegMentions(l) == IF l.rt \in {"L", "C", "E", "G", "P", "F"} THEN RefIds(l) ELSE {}
+\* (an F line: refs[1] is the segment, refs[2] the external sequence, which is no graph identifier)
+SegMentions(l) == IF l.rt \in {"L", "C", "E", "G", "P"} THEN RefIds(l)
+                  ELSE IF l.rt = "F" THEN {l.refs[1].id} ELSE {}
 \* identifiers the line mentions that may be any identified line
 ItemMentions(l) == IF IsGroup(l) THEN RefIds(l) ELSE {}
 Mentions(l) == SegMentions(l) \cup ItemMentions(l)
@@ -136,8 +138,9 @@ RECURSIVE FilingsOf(_, _, _)
 FilingsOf(lines, id, i) ==
   IF i > Len(lines) THEN <<>>
   ELSE LET l == lines[i]
-           occ == IF l.rt \in {"L", "C", "E", "G", "F", "P", "O", "U"}
-                  THEN {n \in DOMAIN l.refs : l.refs[n].id = id} ELSE {}
+           occ == IF l.rt \in {"L", "C", "E", "G", "P", "O", "U"}
+                  THEN {n \in DOMAIN l.refs : l.refs[n].id = id}
+                  ELSE IF l.rt = "F" /\ l.refs[1].id = id THEN {1} ELSE {}
            here == SeqMap(LAMBDA n : <<KeyOn(l, n), Norm(l)>>, SetToSeq(occ))
        IN here \o FilingsOf(lines, id, i + 1)
 Filings(st, id) == BagOf(FilingsOf(st.lines, id, 1))
@@ -152,6 +155,10 @@ OthersVia(st, id, k) == BagOf(SeqMap(LAMBDA i : OtherSeg(st.lines[i], id), SetTo
 OthersVia2(st, id, k1, k2) ==
   BagOf(SeqMap(LAMBDA i : OtherSeg(st.lines[i], id), SetToSeq(FiledIdx(st, id, k1) \cup FiledIdx(st, id, k2))))
 EdgeType(l) == IF l.rt = "L" THEN "L" ELSE IF l.rt = "C" THEN "C" ELSE EClass(l).t
+
+\* external sequences of the fragments (registry behind fragments_for_external)
+ExternalNames(st) == {st.lines[i].refs[2].id : i \in {j \in DOMAIN st.lines : st.lines[j].rt = "F"}}
+FragmentsOf(st, x) == BagOf(SeqMap(Norm, SelectSeq(st.lines, LAMBDA l : l.rt = "F" /\ l.refs[2].id = x)))
 
 \* the paths that use a given real link (once per use)
 RECURSIVE PathUses(_, _, _)
@@ -352,7 +359,9 @@ Rename(st, old, new) ==
       {Ok([st EXCEPT !.lines = [j \in DOMAIN st.lines |->
             LET l1 == IF j = i THEN [st.lines[j] EXCEPT !.name = new] ELSE st.lines[j] IN
             IF t.rt \in {"L", "C"} THEN l1
+            ELSE IF l1.rt = "F" THEN [l1 EXCEPT !.refs = <<SubstRefs(l1.refs, old, new)[1], l1.refs[2]>>]
             ELSE [l1 EXCEPT !.refs = SubstRefs(l1.refs, old, new)]]])}
+      \cup (IF st.orph THEN {Fail(st, "NotUniqueError")} ELSE {})   \* an orphan placeholder may carry the name
 
 \* --- whole-document entry points: Gfa(text | list), Gfa.from_file -------------
 RECURSIVE AddAll(_, _)
